@@ -63,6 +63,34 @@ def run(ctx, H):
                           [("mon_c03", "the run under a script that switches to Break at call k differs from the keep-going run before/at call k, "
                                        "or something other than hand-overs of the built error happens after the stop")],
                           "corr_c03 (ordered trace of both runs)")
+    # "the container in which the report was made returns at once": a failing FIELD-level try_from is reported by the struct
+    # itself (the conversion is part of the struct's code), so when that report is answered Break the struct may only hand
+    # the result over and return - whatever the hand-over is answered. The functions concerned are known from the catalogue.
+    from .. import tys as T
+    field_tf = set()
+    for e in H.entries:
+        for it in T.items_in(e.ty):
+            for f in it.all_fields():
+                a = f.get("try_from")
+                if a:
+                    field_tf.add(a[2])
+    nown = 0
+    for (c0, c1), so in zip(pairs, sobs):
+        tr = so["trace"]
+        ans = lambda j: c1.script[j] if j < len(c1.script) else c1.default
+        for i, call in enumerate(tr):
+            if call.get("c") == "mergeu" and call["u"]["f"] in field_tf and call.get("self") is None and not ans(i):
+                if i + 2 < len(tr):
+                    nxt = tr[i + 2]
+                    if not (nxt.get("c") == "merge" and nxt.get("other") == i + 1):
+                        nown += 1
+                        if nown <= 3:
+                            d = c1.describe()
+                            d.update({"kind": "a struct went on after the report of its own failed field conversion (call %d) was answered Break: call %d is not the "
+                                              "hand-over of the struct's result to its parent" % (i, i + 2), "impl": so})
+                            ctx.violation("own-stop-%d" % nown, d)
+                break
+    ctx.coverage["own_report_stop_failures"] = nown
     flat_cases = [p[1] for p in pairs]
     ctx.coverage.update({
         "evaluations": len(pairs), "distinct_nontrivial": E.nontrivial(flat_cases, sobs),
